@@ -409,12 +409,37 @@ LAYER_IO_SUBST = IO_SUBST + [
     (r"(?s)owning_data_t\s*\(\s*sizes\s*,\s*std::move\s*\(\s*be\s*\)\s*\)", "verif_layer_own_ctor(sizes, be)", 0, True),
     (r"__typeof__\s*\(\s*m_sizes\s*\)", "ND_SIZE_T", 0, True),
 ]
-LAYER_FILES = {"1": (STRIDED, "struct strided"), "2": (MORTON, "struct morton"), "3": (HILBERT, "struct hilbert")}
+LAYER_FILES = {"1": (STRIDED, "struct strided"), "2": (MORTON, "struct morton"), "3": (HILBERT, "struct hilbert"),
+               "4": (CLAMP, "struct clamp"), "5": (BACKUP, "struct backup")}
+VEC_IO_SUBST = IO_SUBST + [
+    (r"\bIO_MAGIC_HEADER\b", "verif_layer_tag_obj", 0, True),
+    (r"(?s)(?:utility::)?read_binary\s*<\s*__typeof__\s*\(\s*m_(?:min|max)\s*\)\s*>\s*\(", "read_binary_invec(", 0, True),
+    (r"(?s)(?:utility::)?read_binary\s*<\s*__typeof__\s*\(\s*m_default\s*\)\s*>\s*\(", "read_binary_outvec(", 0, True),
+    (r"\bauto\s+(min|max)\b", r"IN_VEC_T \1", 0, True),
+    (r"\bauto\s+def\b", "OUT_VEC_T def", 0, True),
+    (r"(?s)typename\s+backend_t::owning_data_t\s+be\s*=\s*backend_t::owning_data_t::read_binary\s*\(", "B_OWN_T be = backend_read_binary(", 0, True),
+    (r"(?s)\bauto\s+be\s*=\s*backend_t::owning_data_t::read_binary\s*\(", "B_OWN_T be = backend_read_binary(", 0, True),
+    (r"(?s)backend_t::owning_data_t::write_binary\s*\(\s*fs\s*,\s*o\s*\.\s*m_backend\s*\)", "backend_write_binary(fs, &o.m_backend)", 0, True),
+    (r"(?s)owning_data_t\s*\(\s*configuration_t\s*\{\s*min\s*,\s*max\s*\}\s*,\s*std::move\s*\(\s*be\s*\)\s*\)", "verif_clamp_own_ctor(min, max, be)", 0, True),
+    (r"(?s)owning_data_t\s*\(\s*configuration_t\s*\{\s*min\s*,\s*max\s*,\s*def\s*\}\s*,\s*std::move\s*\(\s*be\s*\)\s*\)", "verif_backup_own_ctor(min, max, def, be)", 0, True),
+    (r"__typeof__\s*\(\s*m_(?:min|max)\s*\)", "IN_VEC_T", 0, True),
+    (r"__typeof__\s*\(\s*m_default\s*\)", "OUT_VEC_T", 0, True),
+]
 
 
 def make_layer_io(name, consts, L="1"):
     f, sc = LAYER_FILES[L]
     fns = binio_fns()
+    if L in ("4", "5"):
+        fns.append(Fn("read_binary_invec", BINIO, ["namespace covfie::utility"], "read_binary", ret="IN_VEC_T", ptypes=["VERIF_ISTREAM *"],
+                      subst=[("T", "IN_VEC_T", 0)] + IO_SUBST, drop=[r"(?s)static_assert\s*\(.*?\)\s*;"], throws=True, dummy_ret="rv"))
+        fns.append(Fn("read_binary_outvec", BINIO, ["namespace covfie::utility"], "read_binary", ret="OUT_VEC_T", ptypes=["VERIF_ISTREAM *"],
+                      subst=[("T", "OUT_VEC_T", 0)] + IO_SUBST, drop=[r"(?s)static_assert\s*\(.*?\)\s*;"], throws=True, dummy_ret="rv"))
+        fns.append(Fn("layer_read_binary", f, [sc, "struct owning_data_t"], "read_binary", ret="LAYER_OWN_T", ptypes=["VERIF_ISTREAM *"],
+                      subst=VEC_IO_SUBST, throws=True, propagate=MAY_THROW, dummy_ret="((LAYER_OWN_T){0})"))
+        fns.append(Fn("layer_write_binary", f, [sc, "struct owning_data_t"], "write_binary", ret="void", ptypes=["VERIF_OSTREAM *", "const LAYER_OWN_T *"],
+                      subst=VEC_IO_SUBST, refparams=["o"]))
+        return Unit(name, fns, "contracts/layer_io.h", "lemmas/layer_io.c")
     fns.append(Fn("read_binary_ndsize", BINIO, ["namespace covfie::utility"], "read_binary", ret="ND_SIZE_T", ptypes=["VERIF_ISTREAM *"],
                   subst=[("T", "ND_SIZE_T", 0)] + IO_SUBST, drop=[r"(?s)static_assert\s*\(.*?\)\s*;"], throws=True, dummy_ret="rv"))
     fns.append(Fn("layer_read_binary", f, [sc, "struct owning_data_t"], "read_binary", ret="LAYER_OWN_T", ptypes=["VERIF_ISTREAM *"],
